@@ -154,8 +154,8 @@ PAIR_SECOND_A = [('tensordot', 'int1'), ('add', 'same'), ('combine_legs', 'all')
 
 def CASES(tier, seed):
     cases = []
-    opsA = [(n, v) for n, s in C.OPS.items() if 'A' in s.tiers for v in _variants(s, tier)]
-    opsB = [(n, v) for n, s in C.OPS.items() if 'B' in s.tiers for v in s.variants]
+    opsA = [(n, v) for n, s in C.OPS.items() if 'A' in s.tiers and 'C01' in s.props for v in _variants(s, tier)]
+    opsB = [(n, v) for n, s in C.OPS.items() if 'B' in s.tiers and 'C01' in s.props for v in s.variants]
     OA = dict(max_paths=60000, max_wall_s=200 if tier == 'quick' else 1500, validate_paths=2, hard_timeout_s=230 if tier == 'quick' else 1700)
     for si, st in enumerate(structs_A(tier)):
         first_pattern = st['legs'][0]['qconj'] == 1 and st['legs'][1]['qconj'] == -1
